@@ -10,6 +10,7 @@ import (
 	"net"
 	"runtime/debug"
 	"strconv"
+	"time"
 
 	envoy "github.com/envoyproxy/go-control-plane/envoy/service/auth/v3"
 	"google.golang.org/grpc"
@@ -53,6 +54,11 @@ type guarded struct {
 }
 
 func (g *guarded) Check(ctx context.Context, req *envoy.CheckRequest) (resp *envoy.CheckResponse, err error) {
+	if c, ok := g.d.checkOf(ctx).(*checkRun); ok {
+		served := make(chan struct{})
+		g.d.serving.Store(c.n, served)
+		defer close(served)
+	}
 	defer func() {
 		if r := recover(); r != nil {
 			if c, ok := g.d.checkOf(ctx).(*checkRun); ok {
@@ -65,6 +71,7 @@ func (g *guarded) Check(ctx context.Context, req *envoy.CheckRequest) (resp *env
 }
 
 type grpcFront struct {
+	d      *driver
 	srv    *server.Server
 	conn   *grpc.ClientConn
 	client envoy.AuthorizationClient
@@ -87,14 +94,29 @@ func (d *driver) newGrpcFront(e *env, f *server.ExtAuthZFilter) (*grpcFront, err
 		s.GracefulStop()
 		return nil, err
 	}
-	return &grpcFront{srv: s, conn: conn, client: envoy.NewAuthorizationClient(conn)}, nil
+	return &grpcFront{d: d, srv: s, conn: conn, client: envoy.NewAuthorizationClient(conn)}, nil
 }
 
+// check sends the request and returns what the client received. A client that gives up (a cancelled request) has its
+// answer at once while the handler is still running on the server: the check is over only when the handler has returned
+// too, as with a direct call - until then the scheduler goes on releasing the gates it reaches.
 func (g *grpcFront) check(ctx context.Context, c *checkRun, req *envoy.CheckRequest) (*envoy.CheckResponse, error) {
-	return g.client.Check(metadata.AppendToOutgoingContext(ctx, checkMD, strconv.Itoa(c.n)), req)
+	resp, err := g.client.Check(metadata.AppendToOutgoingContext(ctx, checkMD, strconv.Itoa(c.n)), req)
+	if served, ok := g.d.serving.Load(c.n); ok {
+		select {
+		case <-served.(chan struct{}):
+		case <-time.After(60 * time.Second):
+		}
+	}
+	return resp, err
 }
 
 func (g *grpcFront) close() {
 	_ = g.conn.Close()
-	g.srv.GracefulStop()
+	stopped := make(chan struct{})
+	go func() { g.srv.GracefulStop(); close(stopped) }()
+	select {
+	case <-stopped:
+	case <-time.After(20 * time.Second): // a handler that never returns must not hold up the other scenarios
+	}
 }
